@@ -91,3 +91,17 @@ pub fn txt_has(r: &Record, attr: &[u8]) -> bool {
         _ => false,
     }
 }
+
+pub fn srv_of_rdata(r: &RData) -> Option<Name> {
+    match r {
+        RData::Srv { target, .. } => Some(target.clone()),
+        _ => None,
+    }
+}
+
+pub fn ptr_target_rdata(r: &RData) -> Option<Name> {
+    match r {
+        RData::Ptr(n) => Some(n.clone()),
+        _ => None,
+    }
+}
